@@ -176,8 +176,13 @@ def apply_mutation(name, cls, G, kw, pick):
         if not inner:
             return None
         v = inner[pick[0] % len(inner)]
-        e = list(G.in_edges(v))[0]
+        ins = [e for e in G.in_edges(v) if e[0] != e[1]]  # a self-loop adds to both sides of the balance
+        if not ins:
+            return None
+        e = ins[0]
         G.edges[e]["flow"] = G.edges[e]["flow"] + 1
+        if not _not_conserving(G, kw):
+            return None
         return G, kw
     if name.startswith("constraint_"):
         cons = [list(c) for c in kw.get(ckey, [])]
